@@ -535,3 +535,49 @@ Proof.
     destruct (format flux_body (pos1 (r0 :: r1))) as [rb|]; destruct sched; cbn [bind]; try reflexivity;
       rewrite read_back_app by (rewrite str_eqb_app_l; reflexivity); reflexivity.
 Qed.
+
+(** * FluxScriptAdapter._convert_walltime_to_seconds *)
+Lemma Z_dec_N : forall n, Z_dec (Z.of_N n) = N_dec n.
+Proof. intros. unfold Z_dec. destruct n; simpl; auto. Qed.
+
+Lemma minutes_str : forall n, num_str (NumI (Z.of_N n * 60)) = N_dec (n * 60).
+Proof. intros. unfold num_str. change 60%Z with (Z.of_N 60). rewrite <- N2Z.inj_mul. apply Z_dec_N. Qed.
+
+(** the loop over the reversed colon-separated parts, whatever its text *)
+Lemma walltime_loop : forall (body : nat * str -> Z -> res Z),
+  (forall i value acc, body (i, value) acc =
+     (x <- float_int value ;; Ok (acc + x * Z.pow 60 (Z.of_nat i))%Z)) ->
+  forall l k acc,
+  for_res (combine (seq k (List.length l)) l) body acc =
+  match sum_parts l (Z.pow 60 (Z.of_nat k)) with Some z => Ok (acc + z)%Z | None => Err Diag end.
+Proof.
+  intros body HB. induction l as [|p r IH]; intros k acc.
+  - simpl. rewrite Z.add_0_r. reflexivity.
+  - cbn [List.length seq combine for_res sum_parts]. rewrite HB. unfold float_int.
+    assert (P : (Z.pow 60 (Z.of_nat k) * 60 = Z.pow 60 (Z.of_nat (S k)))%Z).
+    { rewrite Nat2Z.inj_succ. rewrite Z.pow_succ_r by lia. lia. }
+    rewrite P. destruct (py_int p) as [z|]; cbn [bind].
+    + rewrite IH. destruct (sum_parts r (Z.pow 60 (Z.of_nat (S k)))); [f_equal; lia | reflexivity].
+    + destruct (sum_parts r (Z.pow 60 (Z.of_nat (S k)))); reflexivity.
+Qed.
+
+Theorem flux_convert_walltime_is_generated : forall v,
+  (n <- flux_convert_walltime_gen v ;; Ok (num_str n)) = flux_walltime v.
+Proof.
+  intros v. unfold flux_convert_walltime_gen, flux_walltime.
+  destruct v as [n|t|b| |n]; cbn [v_is_int v_is_float v_is_str orb andb v_float bind v_isnumeric v_contains truthy negb].
+  - rewrite minutes_str. reflexivity.
+  - destruct (all_digits t) eqn:AD.
+    + unfold float_int. rewrite (py_int_digits t AD), (py_nat_digits t AD). cbn [bind]. rewrite minutes_str. reflexivity.
+    + cbn [bind]. change (s ":") with [58]. destruct (containsb [58] t) eqn:CC.
+      * cbn [v_split bind]. change (str_split [58] t) with (split_on 58 t). unfold enum.
+        match goal with |- context [for_res _ ?body _] =>
+          rewrite (walltime_loop body) by (intros; reflexivity) end.
+        change (Z.pow 60 (Z.of_nat 0)) with 1%Z.
+        destruct (sum_parts (rev (split_on 58 t)) 1%Z); reflexivity.
+      * destruct t as [|c t]; [reflexivity|]. cbn [negb orb v_eq_str].
+        destruct (str_eqb (c :: t) (s "inf")); reflexivity.
+  - destruct b; reflexivity.
+  - reflexivity.
+  - rewrite minutes_str. reflexivity.
+Qed.
